@@ -47,12 +47,10 @@ def to_meshio(mesh_fields: protocols.MeshFields) -> MeshIOMesh:
             cell_data[name] = [[] for _ in range(len(types))]
         cell_data[name][types.index(cell_type)] = [v for v in field.values]
 
-    cells: dict[str, ndarray] = {}
-    for cell_type in types:
-        meshio_ct, meshio_connectivity = _to_meshio_cell_type_and_ordering(
-            cell_type, mesh_fields.domain.connectivity(cell_type)
-        )
-        cells[meshio_ct] = meshio_connectivity
+    # one block per cell type (pixels & quads, or voxels & hexahedra, both map to the same meshio type)
+    cells: list[tuple[str, ndarray]] = [
+        _to_meshio_cell_type_and_ordering(cell_type, mesh_fields.domain.connectivity(cell_type)) for cell_type in types
+    ]
 
     return MeshIOMesh(
         points=mesh_fields.domain.points,
